@@ -377,9 +377,11 @@ fn run_async(script: &[SOp], sock: UnixStream) -> Vec<Obs> {
                     } else if let Some(o) = m.opts {
                         ldap.with_search_options(world::search_options(o));
                     }
-                    let o = match world::invoke(&mut ldap, &call).await {
-                        Outcome::Err(c, _) => Outcome::Err(c, String::new()),
-                        o => o,
+                    // (guard: an operation that never returns is an observation, not a reason to hang the check)
+                    let o = match tokio::time::timeout(Duration::from_secs(5), world::invoke(&mut ldap, &call)).await {
+                        Ok(Outcome::Err(c, _)) => Outcome::Err(c, String::new()),
+                        Ok(o) => o,
+                        Err(_) => Outcome::Hung,
                     };
                     obs.push(Obs::Out(o));
                 }
@@ -461,6 +463,7 @@ pub fn gen_script(rng: &mut Rng, i: u64) -> Vec<SOp> {
             opts: if rng.chance(1, 4) { Some((rng.below(4) as u8, rng.bool(), rng.below(100) as i32, rng.below(100) as i32)) } else { None },
             twice: rng.chance(1, 5),
         };
+        let zero_timeout = rng.chance(1, 3);
         let behaviour = match rng.below(12) {
             0 => "silent".to_string(),
             1 => format!("rc{}", *rng.pick(&[1u32, 5, 6, 10, 32, 49, 53, 68])),
@@ -484,7 +487,8 @@ pub fn gen_script(rng: &mut Rng, i: u64) -> Vec<SOp> {
                 s.base = with_behaviour(&s.base, &b);
                 let mut m = mods.clone();
                 if b == "silent" {
-                    m.timeout_ms = Some(60);
+                    // (a zero timeout against a silent server gives up at once; against an answering server it would race the reply)
+                    m.timeout_ms = Some(if zero_timeout { 0 } else { 60 });
                 }
                 if b == "trickle25" {
                     m.timeout_ms = Some(350);
@@ -510,7 +514,8 @@ pub fn gen_script(rng: &mut Rng, i: u64) -> Vec<SOp> {
                 s.base = with_behaviour(&s.base, &b);
                 let mut m = mods.clone();
                 if b == "silent" {
-                    m.timeout_ms = Some(60);
+                    // (a zero timeout against a silent server gives up at once; against an answering server it would race the reply)
+                    m.timeout_ms = Some(if zero_timeout { 0 } else { 60 });
                 }
                 if b == "trickle25" {
                     m.timeout_ms = Some(350);
@@ -537,7 +542,8 @@ pub fn gen_script(rng: &mut Rng, i: u64) -> Vec<SOp> {
                     Call::Bind { dn, .. } | Call::Add { dn, .. } | Call::Compare { dn, .. } | Call::Delete { dn } | Call::Modify { dn, .. } | Call::ModDn { dn, .. } => {
                         *dn = with_behaviour(dn, &behaviour);
                         if behaviour == "silent" {
-                            m.timeout_ms = Some(60);
+                            // (a zero timeout against a silent server gives up at once; against an answering server it would race the reply)
+                    m.timeout_ms = Some(if zero_timeout { 0 } else { 60 });
                         }
                     }
                     _ => {}
@@ -615,12 +621,11 @@ fn run_script(i: u64, script: Vec<SOp>, rep: &mut Report, verbose: bool) {
     // to run. From there on the oracle only requires that both APIs fail (or both succeed).
     let dying_from: Option<usize> = script.iter().position(|op| match op {
         SOp::Call(Call::Unbind, _) => true,
-        SOp::Call(c, _) => c.expected().token_field().map(|f| behaviour_of(f) == "close").unwrap_or(false),
+        SOp::Call(c, _) => c.expected().token_field().map(|f| behaviour_of(f) == "close" || behaviour_of(f).starts_with("itemsclose")).unwrap_or(false),
         SOp::Stream(sp, ..) => {
             let b = behaviour_of(sp.base.as_bytes());
             b == "close" || b.starts_with("itemsclose")
         }
-        SOp::Call(Call::Search(sp), _) => behaviour_of(sp.base.as_bytes()).starts_with("itemsclose"),
         _ => false,
     });
     // number of requests put on the wire by the steps before that point
